@@ -142,6 +142,16 @@ func runUpgradeCase(ta *TestApp, seed uint64, idx int, rep *Report, profile stri
 		}
 		owners = append(owners, lo)
 	}
+	// the same account under its upper-case bech32 spelling: another store key, another entry (genesis validation compares strings)
+	if len(owners) > 0 && rng.Chance(25) {
+		src := owners[rng.Intn(len(owners))]
+		lo := legacyOwner{addr: strings.ToUpper(src.addr)}
+		for j := 0; j < 1+rng.Intn(2); j++ {
+			lo.pools = append(lo.pools, mk(fmt.Sprintf("upper%d", j), "Validators", rng.LogUniform(15)))
+		}
+		owners = append(owners, lo)
+		rep.Count("legacy_owner.upper_case_spelling_of_another_owner")
+	}
 	pst := prefix.NewStore(ctx.KVStore(storeKey), v2.AccountVestingPoolsKeyPrefix)
 	total := sdk.ZeroInt()
 	type hist struct{ sent, wd, locked sdk.Int }
